@@ -593,7 +593,7 @@ fn run(ctx: &mut Ctx) {
 
 fn finish(m: &Merged, tier: Tier) -> Finish {
     let mut f = Finish {
-        rule: "value -> text written by the harness -> Expr::parse -> must be exactly that value (Int exact, Float by bits, Decimal by value and scale, String by characters): i128 boundaries and random values in decimal / hex / octal / binary with signs and leading zeros; finite doubles (boundaries + random bit patterns + subnormals) in shortest, scientific, exact-expansion, no-leading-digit forms; decimals from (96-bit mantissa, scale <= 28, sign) with the point placed by the generator and digits beyond scale 28; every BMP scalar raw, astral samples, every escape and \\u{hex} width/case; keyword prefixes/extensions and literal-shaped words in 10 syntactic contexts judged by the reference lexer; generated token sequences re-joined with 12 kinds of whitespace/comment separators (or nothing where the reference lexer says the neighbours cannot fuse). Every case is non-trivial; distinct by text".into(),
+        rule: "value -> text written by the harness -> Expr::parse -> must be exactly that value (Int exact, Float by bits, Decimal by value and scale, String by characters): i128 boundaries and random values in decimal / hex / octal / binary with signs and leading zeros; finite doubles (boundaries + random bit patterns + subnormals) in shortest, scientific, exact-expansion, no-leading-digit forms; decimals from (96-bit mantissa, scale <= 28, sign) with the point placed by the generator and digits beyond scale 28; every BMP scalar raw, astral samples, every escape and \\u{hex} width/case; scientific forms with zero-padded and very long exponents; keyword prefixes/extensions, ~250 plausible non-keywords, every 1- and 2-letter word and literal-shaped words in 10 syntactic contexts judged by the reference lexer; generated token sequences re-joined with 12 kinds of whitespace/comment separators (or nothing where the reference lexer says the neighbours cannot fuse). Every case is non-trivial; distinct by text".into(),
         exhaustive: false,
         exhaustive_part: "all 65,534 legal raw BMP characters; all keyword words x contexts; escape table".into(),
         ..Default::default()
